@@ -15,8 +15,12 @@ package shimagent
 //vsym:assume sha256 is modelled as an injective padding of the (at most 31-byte) model blobs: collision-freeness; certificates and keys are model objects with injective 2-byte blobs, ssh.ParsePublicKey / (*Certificate).Marshal are the registry lookup between blob and object; keyid.Unmarshal is summarised as a per-certificate flag (decodes or not, C05); time.Now is an arbitrary instant; the underlying agent is a stateful protocol-level model that may fail at a chosen call; sort.Slice is the identity permutation
 
 import (
+	"crypto/ed25519"
+	crand "crypto/rand"
 	"errors"
 	"io"
+	"math"
+	"net"
 	"sync"
 	"time"
 
@@ -51,6 +55,84 @@ func mwMultierrAppend(l, r error) error {
 
 // ---- keys and certificates ---------------------------------------------------
 
+// Native replay world: when a counterexample is replayed against the real
+// build (vIsNative), keys and certificates are real ed25519 keys / signed
+// certificates, blobs are their real wire encodings, sha256 / the certificate
+// codec / the KeyID decoder / the clock are the real ones; validity windows
+// keep their order relation to the clock (deltas scaled from seconds to hours
+// so that the few seconds a replay takes do not matter).
+
+var nwKeys = map[int]ed25519.PrivateKey{}
+var nwNow = time.Now().Unix()
+
+func nwPriv(id int) ed25519.PrivateKey {
+	if k, ok := nwKeys[id]; ok {
+		return k
+	}
+	_, k, _ := ed25519.GenerateKey(crand.Reader)
+	nwKeys[id] = k
+	return k
+}
+
+// nwShift maps a model instant to a real one with the same order relation to the clock.
+func nwShift(v uint64) uint64 {
+	if v > math.MaxInt64 {
+		return v
+	}
+	d := int64(v) - mwClock
+	const scale = 3600
+	if d > (math.MaxInt64-nwNow)/scale {
+		return math.MaxInt64
+	}
+	r := nwNow + d*scale
+	if d < 0 && (d < -nwNow/scale || r < 0) {
+		return 0
+	}
+	return uint64(r)
+}
+
+const nwKeyID = `{"prins":["u"],"transID":"t","reqUser":"u","reqIP":"1.1.1.1","reqHost":"h","isFirefighter":false,"isHWKey":false,"isHeadless":false,"isNonce":false,"usage":0,"touchPolicy":1,"ver":1}`
+
+// mwPlainKey: the public key with the given id (a model object, or a real key natively).
+func mwPlainKey(id int) ssh.PublicKey {
+	if vIsNative() {
+		k, _ := ssh.NewPublicKey(nwPriv(id).Public())
+		return k
+	}
+	return &mwKey{id: id}
+}
+
+func mwKeyBlob(id int) []byte { return mwPlainKey(id).Marshal() }
+
+// mwUpKey / mwUpCert: put an identity into the underlying agent.
+func mwUpKey(u *mwUpstream, id int, comment string) {
+	k := mwPlainKey(id)
+	u.ids = append(u.ids, &mwIdent{format: k.Type(), blob: k.Marshal(), comment: comment})
+}
+
+func mwUpCert(u *mwUpstream, c *ssh.Certificate, comment string) {
+	format := mwCertFormat
+	if vIsNative() {
+		format = c.Type()
+	}
+	u.ids = append(u.ids, &mwIdent{format: format, blob: mwCertMarshal(c), comment: comment})
+}
+
+// mwCertByBlob: registry lookup (nil if the blob is not a registered certificate).
+func mwCertByBlob(blob []byte) *ssh.Certificate {
+	for _, c := range mwCerts {
+		if string(mwCertMarshal(c)) == string(blob) {
+			return c
+		}
+	}
+	return nil
+}
+
+func mwCertDecodes(c *ssh.Certificate) bool {
+	i := mwCertIndex(c)
+	return i >= 0 && mwDecodes[i]
+}
+
 type mwKey struct{ id int }
 
 func (k *mwKey) Type() string                            { return mwKeyFormat }
@@ -64,6 +146,17 @@ func mwNewCert(keyID int, va, vb uint64, decodes bool) *ssh.Certificate {
 	c := &ssh.Certificate{Key: &mwKey{id: keyID}, ValidAfter: va, ValidBefore: vb, KeyId: "N"}
 	if decodes {
 		c.KeyId = "Y"
+	}
+	if vIsNative() {
+		c = &ssh.Certificate{Key: mwPlainKey(keyID), ValidAfter: nwShift(va), ValidBefore: nwShift(vb), KeyId: "not a key id", CertType: ssh.UserCert,
+			Nonce: []byte{byte(len(mwCerts))}, Serial: uint64(len(mwCerts))}
+		if decodes {
+			c.KeyId = nwKeyID
+		}
+		sg, _ := ssh.NewSignerFromKey(nwPriv(100))
+		if err := c.SignCert(crand.Reader, sg); err != nil {
+			panic(err)
+		}
 	}
 	mwCerts = append(mwCerts, c)
 	mwDecodes = append(mwDecodes, decodes)
@@ -82,6 +175,9 @@ func mwCertIndex(c *ssh.Certificate) int {
 func mwCertBlob(i int) []byte { return []byte{'c', byte(i)} }
 
 func mwCertMarshal(c *ssh.Certificate) []byte {
+	if vIsNative() {
+		return c.Marshal()
+	}
 	i := mwCertIndex(c)
 	if i < 0 {
 		return []byte{'c', 0xff}
@@ -299,6 +395,18 @@ type mwConn struct {
 func (c *mwConn) Read(p []byte) (int, error)  { vAccess("wr", "conn"); return 0, io.EOF }
 func (c *mwConn) Write(p []byte) (int, error) { vAccess("wr", "conn"); return len(p), nil }
 func (c *mwConn) Close() error                { vAccess("wr", "conn"); c.closed = true; return nil }
+
+// mwUpstreamConn: the connection handed to newShimAgent.  Under vsym the
+// agent client is modelled (agent.NewClient returns the upstream model);
+// natively the upstream model is served by x/crypto's real agent server over a pipe.
+func mwUpstreamConn(up *mwUpstream) io.ReadWriteCloser {
+	if vIsNative() {
+		c1, c2 := net.Pipe()
+		go agent.ServeAgent(up, c2)
+		return c1
+	}
+	return &mwConn{}
+}
 
 func mwNewServer(up *mwUpstream, noUpstream bool) *Server {
 	s := &Server{
